@@ -11,6 +11,17 @@ func Gen(prop string, r *sim.Rand, tier string) sim.Script {
 	s := &Script{Prop: prop, Values: "bytes"}
 	if prop == "C07" && r.Chance(1, 2) {
 		s.Values = "nodes"
+	} else if r.Chance(1, 5) {
+		s.Values = "string"
+	}
+	// mostly every write has its own value (a wrong hit is attributable to one write); sometimes a domain of
+	// three values, so that blocks rewrite the value their parent already has
+	smallDom := r.Chance(1, 8)
+	vstr := func(n int) string {
+		if smallDom {
+			return fmt.Sprintf("v%d", r.Intn(3))
+		}
+		return fmt.Sprintf("v%d", n)
 	}
 	nKeys := 1 + r.Intn(4)
 	nOps := 5 + r.Intn(60)
@@ -62,7 +73,7 @@ func Gen(prop string, r *sim.Rand, tier string) sim.Script {
 		case 2:
 			if nt > 0 {
 				nv++
-				s.Ops = append(s.Ops, Op{K: "tset", T: r.Intn(nt), Y: key(), V: fmt.Sprintf("v%d", nv)})
+				s.Ops = append(s.Ops, Op{K: "tset", T: r.Intn(nt), Y: key(), V: vstr(nv)})
 			}
 		case 3:
 			if nt > 0 {
@@ -79,7 +90,7 @@ func Gen(prop string, r *sim.Rand, tier string) sim.Script {
 		case 6:
 			if len(openBlocks) > 0 {
 				nv++
-				s.Ops = append(s.Ops, Op{K: "bset", B: openBlocks[r.Intn(len(openBlocks))], Y: key(), V: fmt.Sprintf("v%d", nv)})
+				s.Ops = append(s.Ops, Op{K: "bset", B: openBlocks[r.Intn(len(openBlocks))], Y: key(), V: vstr(nv)})
 			}
 		case 7:
 			if len(openBlocks) > 0 {
@@ -140,7 +151,7 @@ func min(a, b int) int {
 // genLong: long chains that exceed the real capacities (200 versions per key,
 // 2000 ancestor links) with reads at old blocks that refresh their recency.
 func genLong(prop string, r *sim.Rand) sim.Script {
-	s := &Script{Prop: prop, Values: "bytes"}
+	s := &Script{Prop: prop, Values: []string{"bytes", "bytes", "string"}[r.Intn(3)]}
 	n := 230 + r.Intn(120)
 	if r.Chance(1, 6) {
 		n = 2050 + r.Intn(200)
@@ -148,12 +159,32 @@ func genLong(prop string, r *sim.Rand) sim.Script {
 	nKeys := 1 + r.Intn(2)
 	writeEvery := 1 + r.Intn(2)
 	hot := r.Intn(20) // an old block that is read again and again
-	nv := 0
+	smallDom := r.Chance(1, 3)
+	nv, nt := 0, 0
+	val := func() string {
+		nv++
+		if smallDom {
+			return fmt.Sprintf("v%d", r.Intn(3))
+		}
+		return fmt.Sprintf("v%d", nv)
+	}
 	for b := 0; b < n; b++ {
 		s.Ops = append(s.Ops, Op{K: "blk", P: b - 1})
 		if b%writeEvery == 0 {
-			nv++
-			s.Ops = append(s.Ops, Op{K: "bset", B: b, Y: fmt.Sprintf("k%d", r.Intn(nKeys)), V: fmt.Sprintf("v%d", nv)})
+			k := fmt.Sprintf("k%d", r.Intn(nKeys))
+			switch r.Intn(8) {
+			case 0: // written and removed again by one transaction
+				s.Ops = append(s.Ops, Op{K: "txn", B: b}, Op{K: "tset", T: nt, Y: k, V: val()}, Op{K: "trem", T: nt, Y: k}, Op{K: "tcommit", T: nt})
+				nt++
+			case 1:
+				s.Ops = append(s.Ops, Op{K: "txn", B: b}, Op{K: "trem", T: nt, Y: k}, Op{K: "tcommit", T: nt})
+				nt++
+			case 2, 3:
+				s.Ops = append(s.Ops, Op{K: "txn", B: b}, Op{K: "tset", T: nt, Y: k, V: val()}, Op{K: "tcommit", T: nt})
+				nt++
+			default:
+				s.Ops = append(s.Ops, Op{K: "bset", B: b, Y: k, V: val()})
+			}
 		}
 		s.Ops = append(s.Ops, Op{K: "bcommit", B: b})
 		if b > hot && r.Chance(1, 3) {
@@ -161,6 +192,9 @@ func genLong(prop string, r *sim.Rand) sim.Script {
 		}
 		if r.Chance(1, 10) {
 			s.Ops = append(s.Ops, Op{K: "sget", B: r.Intn(b + 1), Y: fmt.Sprintf("k%d", r.Intn(nKeys))})
+		}
+		if r.Chance(1, 6) { // at the tip, where no version can have been evicted yet
+			s.Ops = append(s.Ops, Op{K: []string{"sget", "qget"}[r.Intn(2)], B: b, Y: fmt.Sprintf("k%d", r.Intn(nKeys))})
 		}
 	}
 	for i := 0; i < 60; i++ {
